@@ -632,6 +632,7 @@ func c12(c *ctx) {
 		})
 		c.o.case_(fmt.Sprint("openRace", k), true)
 	}
+	c12tls(c)
 	for k, v := range kinds {
 		c.o.stat("op_"+k, v)
 	}
